@@ -115,7 +115,7 @@ def iter_cases(ctx, conf, init_variants=True, want_random=True, with_reuse=True,
         yield v, params, rng.choice(("tuple", "char", "bytes", "int01")), f"{('generator' if gen else rng.choice(tok.DELIVERY))}|dress={how}{gen}", "dressed_parameters"
         if (c & 255) == 0 and ctx.out_of_time():
             return
-    # tokenizers obtained by copying, generators advanced from alternating threads, sources that re-bind their read()
+    # tokenizers obtained by copying, generators advanced from alternating threads, sources whose read() delegates to a re-pointed implementation
     rng = ctx.rng("objects")
     small_o = plain + (G.param_tuples(4, init=True) if init_variants else [])
     for i in range(max(240, conf["random"] // 3)):
